@@ -59,6 +59,40 @@ def run(prog):
         arm = "level-var" if at_level else "node-var"
         out.append(inst("SL", "%s:new#%s" % (fn.npath, arm), VIOLATION if errs else OK, fn, cs.line,
                         "; ".join(errs) if errs else "label %s, children one level down" % desc))
+    # SL3: the argument is returned unchanged only once every level has been handled
+    alts = []
+
+    def collect(t, pb, conds):
+        if isinstance(t, tuple) and t and t[0] == "phi":
+            for p_, v in t[2]:
+                collect(v, p_, conds)
+        elif isinstance(t, tuple) and t and t[0] == "gamma":
+            for lab, v in t[2]:
+                collect(v, pb, conds + [(t[1], lab)])
+        else:
+            alts.append((pb, t, conds))
+    for b, t in te.ret_by_block.items():
+        collect(t, b, [])
+    n_asis = 0
+    for pb, t, conds in alts:
+        t = strip(t)
+        if mir.is_call(t, "get_or_insert") or mir.is_call(t, "neg"):
+            continue
+        n_asis += 1
+        done = False
+        facts = [(c, val) for c, val, _, d in te.facts_at(pb if isinstance(pb, int) and pb >= 0 else 0)] + conds
+        for c, val in facts:
+            c = strip(c)
+            if c[0] == "bin" and c[1] in ("Ge", "Gt", "Eq") and strip(c[2]) == cur and strip(c[3]) == ("param", 4) and val != "0":
+                done = True
+            if c[0] == "bin" and c[1] in ("Lt", "Le") and strip(c[2]) == cur and strip(c[3]) == ("param", 4) and val == "0":
+                done = True
+        out.append(inst("SL", "%s:return-as-is" % fn.npath + ("" if n_asis == 1 else "#%d" % n_asis), OK if done else VIOLATION, fn, None,
+                        "the diagram is returned unchanged only when current >= total" if done else
+                        "a path returns `%s` although levels current..total are still untested on it: the smoothed "
+                        "diagram would skip those variables (wrong counts through complemented edges)" % show(t)[:60]))
+    if n_asis < 1:
+        raise CheckerError("SL3: no base-case return found in smooth_helper")
     # the Compl arm: neg(smooth_helper(Reg(node), current, total))
     # entry: smooth(bdd, n) = smooth_helper(bdd, 0, n)
     sm = prog.find1(name="smooth", self_adt="builder::bdd::robdd::RobddBuilder", unit="rsdd-lib")
